@@ -6,7 +6,6 @@ import (
 	"fmt"
 	"regexp"
 	"strings"
-	"unicode/utf8"
 
 	classifier "github.com/google/licenseclassifier/v2"
 )
@@ -20,7 +19,6 @@ func normalizeSafe(c *classifier.Classifier, in []byte) (out []byte, panicked bo
 	return c.Normalize(in), false
 }
 
-var hyphenEOL = regexp.MustCompile(`[-‒–—‐][ \t\r]*\n`)
 var noticeLike = regexp.MustCompile(`(?i)copyright|\d{4}-`)
 
 var c11DiffA, c11DiffB string // words at the first token difference of the last c11Verdict call
@@ -80,6 +78,7 @@ func c11Class(c *classifier.Classifier, in []byte) string {
 			return "number-token-ending-in-hyphen-at-line-end"
 		}
 	}
+	// a line that is an ignorable notice only after cleaning: blank those lines and re-check
 	lines := strings.Split(string(in), "\n")
 	var kept []string
 	dropped := false
@@ -91,34 +90,15 @@ func c11Class(c *classifier.Classifier, in []byte) string {
 		}
 		kept = append(kept, l)
 	}
-	in2 := []byte(strings.Join(kept, "\n"))
-	hy := hyphenEOL.Match(in2)
-	in3 := in2
-	if hy {
-		// separate every hyphen from the line break that follows it
-		in3 = hyphenEOL.ReplaceAllFunc(in2, func(m []byte) []byte {
-			r, n := utf8.DecodeRune(m)
-			return append(append([]byte(string(r)), '.'), m[n:]...)
-		})
-	}
-	if !dropped && !hy {
+	if !dropped {
 		return ""
 	}
-	out3, p := normalizeSafe(c, in3)
-	if p || c11Verdict(c, in3, out3) != "" {
-		return "" // still failing without the known triggers: new
+	in2 := []byte(strings.Join(kept, "\n"))
+	out2, p := normalizeSafe(c, in2)
+	if p || c11Verdict(c, in2, out2) != "" {
+		return "" // still failing without the known trigger: new
 	}
-	if dropped && hy {
-		out2, _ := normalizeSafe(c, in2)
-		if c11Verdict(c, in2, out2) == "" {
-			return "line-ignorable-only-after-cleaning"
-		}
-		return "hyphen-before-line-break"
-	}
-	if dropped {
-		return "line-ignorable-only-after-cleaning"
-	}
-	return "hyphen-before-line-break"
+	return "line-ignorable-only-after-cleaning"
 }
 
 func cmdC11(seed uint64, tier, outdir string) {
@@ -130,8 +110,9 @@ func cmdC11(seed uint64, tier, outdir string) {
 		n = 700
 	}
 	ins := baseInputs(r, n)
-	// version numbers followed by extra full stops ("Version 2.0.. (the")
-	for _, in := range ins[:len(ins)/3] {
+	// version numbers followed by extra full stops ("Version 2.0.. (the"): existing numbers decorated, and
+	// such tokens inserted after a word in the middle of a line
+	for _, in := range ins[:len(ins)/2] {
 		ws := strings.Split(string(in.data), " ")
 		changed := false
 		for i, w := range ws {
@@ -140,8 +121,42 @@ func cmdC11(seed uint64, tier, outdir string) {
 				changed = true
 			}
 		}
+		for k := 0; k < 3 && len(ws) > 4; k++ {
+			i := 1 + r.intn(len(ws)-2)
+			if ws[i] == "" || strings.Contains(ws[i], "\n") || strings.Contains(ws[i-1], "\n") || strings.HasSuffix(ws[i], "-") {
+				continue
+			}
+			ws[i] = ws[i] + " " + []string{"2.0..", "1.1...", "3.0.,.", "2..", "10..", "version 2.0.."}[r.intn(6)]
+			changed = true
+		}
 		if changed {
 			ins = append(ins, input{"extra-dots:" + in.name, []byte(strings.Join(ws, " "))})
+		}
+	}
+	// words hyphenated across one or two line breaks, and hyphen-terminated fragments that clean to nothing
+	for _, in := range ins[:len(ins)/2] {
+		ws := strings.Split(string(in.data), " ")
+		changed := false
+		for k := 0; k < 6 && len(ws) > 4; k++ {
+			i := 1 + r.intn(len(ws)-2)
+			w := ws[i]
+			if len(w) < 6 || strings.ContainsAny(w, "\n-&;0123456789") {
+				continue
+			}
+			a := 2 + r.intn(len(w)-4)
+			switch r.intn(4) {
+			case 0:
+				b := a + 1 + r.intn(len(w)-a-1)
+				ws[i] = w[:a] + "-\n" + w[a:b] + "-\n" + w[b:]
+			case 1:
+				ws[i] = w[:a] + "-\n" + w[a:] + "\n&-\n("
+			default:
+				ws[i] = w[:a] + "-\n" + w[a:]
+			}
+			changed = true
+		}
+		if changed {
+			ins = append(ins, input{"hyphenated:" + in.name, []byte(strings.Join(ws, " "))})
 		}
 	}
 	nLicenseBearing := len(ins)
